@@ -38,6 +38,7 @@ STATEMENT_STATUS: Dict[str, str] = {
     "C13_bound_asciihexdecode": "proved (round 6): every payload - 2 * output <= input + 1; only binascii.Error",
     "C13_bound_ascii85decode": "proved (round 6): every payload - output <= 4 * input + 16; only ValueError",
     "C13_bound_lzwdecode": "proved (round 6): every payload - output <= (8n+1)(8n+2); only IndexError",
+    "C13_numtree_guard_present": "proved (round 6), presence only: NumberTree._parse tests/grows/hands on its visited set incl. the indirect /Kids array (regenerated); the walk itself is not modelled",
     "C13_bound_predictors": "proved (round 6): PNG and TIFF predictors on arbitrary Colors/Columns/BitsPerComponent and data - output <= input",
     "C13_family_stream_decode": "proved (round 6): PDFStream.decode (model of C03, whole chain with predictors) returns data or raises a PDFException; CCITTFax is out of that model",
     "PS/PDF parser, object streams, fonts/CMaps/Type1, content interpreter, layout, converters, security handlers, CCITT/Flate internals":
@@ -149,6 +150,7 @@ def fragment() -> Dict[str, Any]:
 
 FIXED: List[str] = [
     "fixed: property=C13 aa4d991 work budget: utils.Plane.add enumerated every grid cell of text scaled to astronomic coordinates (form /Matrix 1e30 with all_texts, or a huge cm in a content stream); Plane now bounds the grid work per operation (fix by the Plane/C20 owner)",
+    "fixed: property=C13 0e01a8b number tree (PageLabels) whose directly written intermediate node names the indirect /Kids array it sits in as its own /Kids: RecursionError in NumberTree._parse (the cycle passes through no node reference)",
     "fixed: property=C13 b008bbf stream whose /Length refers to the stream itself: RecursionError in getobj",
     "fixed: property=C13 9e1c212 negative or oversized /Length: wrong data / OverflowError",
     "fixed: property=C13 be941ec inline image with /F that is neither name nor non-empty array: TypeError/IndexError/KeyError",
